@@ -105,7 +105,7 @@ func c05Run(c c05Case) *vlib.Failure {
 	m.flushed, m.allocs, m.failAt, m.failErr = nil, 0, c.FailAt, nil
 	m.tempFail = c.TempFail
 	var err *kernel.Error
-	if pc := vlib.Catch(func() { err = setupPDTForKernel(uintptr(c.Offset)) }); pc.Panicked {
+	if pc := vlib.CatchFault(func() { err = setupPDTForKernel(uintptr(c.Offset)) }); pc.Panicked {
 		return vlib.Failf("building the kernel address space: %v", pc)
 	}
 	if c.TempFail || m.failErr != nil {
@@ -236,6 +236,27 @@ func c05Gen(t *rapid.T) c05Case {
 		n = rapid.SampledFrom([]int{16, 31, 32, 33, 34, 48, 64, 65, 100, 129}).Draw(t, "nmany")
 	}
 	low := uint64(0)
+	if rapid.IntRange(0, 59).Draw(t, "hugecount") == 0 {
+		// thousands of section headers (the count is a 16-bit field): small sections derived
+		// from their index, delivered through the real multiboot decoder
+		total := rapid.SampledFrom([]int{1022, 1023, 1024, 1025, 1100, 2047, 2049}).Draw(t, "nhuge")
+		for i := 0; i < total; i++ {
+			s := c05Section{Name: fmt.Sprintf(".h%d", i), Flags: uint32(i % 8), Size: uint64(1 + (i*37)%4096)}
+			if i%13 == 5 {
+				s.Addr = low + 0x32 // below the kernel's range
+				if s.Addr+s.Size > c.Offset {
+					s.Addr, s.Size = 0, 1
+				}
+				low = (s.Addr + s.Size + 4095) &^ 4095
+			} else {
+				s.Addr = cursor + uint64(i%3)*0x20
+				cursor = (s.Addr + s.Size + 4095) &^ 4095
+			}
+			c.Sections = append(c.Sections, s)
+		}
+		n = 0
+		c.ViaMultiboot = c.Offset >= 0xffff800000000000
+	}
 	for i := 0; i < n; i++ {
 		s := c05Section{Name: fmt.Sprintf(".s%d", i)}
 		s.Flags = uint32(rapid.IntRange(0, 7).Draw(t, "secflags"))
@@ -350,6 +371,9 @@ func TestVerifC05(t *testing.T) {
 		}
 		if c.ViaMultiboot {
 			add("sections-through-real-multiboot-block")
+			if len(c.Sections) > 1000 {
+				add("more-than-1000-section-headers-through-the-real-decoder")
+			}
 		}
 		st.Case(c, len(perms) >= 2 && len(c.Reservations) >= 1, uniqSorted(labels)...)
 		if fail != nil && len(fail.Msg) > 13 && fail.Msg[:13] == "VERIF-HARNESS" {
